@@ -535,3 +535,44 @@ func Any(t *rapid.T, o Opts) File {
 }
 
 var _ = bytes.Equal
+
+// LargeHeader builds a well-formed file of the given format whose last needed
+// metadata structure ends shortly after byte offset `at` (big ancillary data in
+// front of it): JPEG: maximal COM segments before SOF (+ a 2-chunk ICC profile
+// after them); PNG: one big tEXt chunk between IHDR and iCCP; WebP: a big ICCP chunk.
+func LargeHeader(format string, at int) File {
+	f := File{Format: format, Bits: 8, HasICC: true}
+	prof := build.SimpleProfile(build.TextDesc("large header"), 64)
+	switch format {
+	case "JPEG":
+		var segs []build.Seg
+		for n := at; n > 0; n -= 65537 {
+			k := 65533
+			if n < 65537 {
+				k = n - 4
+				if k < 0 {
+					k = 0
+				}
+			}
+			segs = append(segs, build.Seg{Marker: 0xFE, Data: make([]byte, k)})
+		}
+		segs = append(segs, build.ICCSegs(prof, []int{100})...)
+		segs = append(segs, build.Seg{Marker: 0xC0, Data: build.SOF(8, 33, 44, [][3]byte{{1, 0x11, 0}})})
+		f.W, f.H, f.ICC = 44, 33, prof
+		f.Data, f.Map = build.JPEG{Segs: segs, SOS: []byte{1, 1, 0, 0, 63, 0}, Entropy: []byte{1, 2}}.Bytes()
+		f.NeedEnd = f.Map.Marks["sofEnd"]
+	case "PNG":
+		p := build.PNG{W: 44, H: 33, Depth: 8, ColorType: 2, Pre: []build.Chunk{{Type: "tEXt", Data: make([]byte, at)}, build.ICCPChunk("p", prof, 6)}, IDAT: []byte{1}}
+		f.W, f.H, f.ICC = 44, 33, prof
+		f.Data, f.Map = p.Bytes()
+		f.NeedEnd = f.Map.Marks["needEnd"]
+	default:
+		big := build.SimpleProfile(build.TextDesc("large header"), at)
+		w := build.WebP{Chunks: []build.RIFFChunk{{FourCC: "VP8X", Data: build.VP8XHeader(0x20, 43, 32)}, {FourCC: "ICCP", Data: big}, {FourCC: "VP8L", Data: build.VP8LHeader(43, 32, false)}}}
+		f.W, f.H, f.ICC = 44, 33, big
+		f.Data, f.Map = w.Bytes()
+		f.NeedEnd = f.Map.Marks["needEnd"]
+	}
+	f.Desc = fmt.Sprintf("%s whose metadata ends at offset %d (large ancillary data first)", format, f.NeedEnd)
+	return f
+}
